@@ -1,2 +1,49 @@
-(* C01 - closing theorems only. *)
-From Slim Require Import Base Keys Model.
+(* C01 - Indexed keys are always found with their own value (no false negatives).
+   Closing theorems only; proofs are in theories/QueryProofs.v.
+
+   Model level: L2 (tree model with BFS ids, coq/theories/Model.v), which the
+   correspondence check compares node by node and lookup by lookup with the
+   implementation, for fresh tries and for tries loaded from their own
+   Marshal output.  Values are their encoded byte strings (C15 relates those to
+   the typed values).  [build .. = Ok T] is the success of NewSlimTrie (C08
+   says when that happens). *)
+From Slim Require Import Base Keys KeysProofs Model QueryProofs.
+
+(* every option combination goes through [normalize]; keys are arbitrary byte
+   strings of any length; values: None (nil), or any list of byte strings (fixed
+   or variable width, possibly empty strings) *)
+Theorem C01_no_false_negatives :
+  forall (ropt : raw_opt) (keys : list key) (vals : option (list (list byte))) (T : trie) (i : nat) (k : key),
+    build (normalize ropt) keys vals = Ok T ->
+    nth_error keys i = Some k ->
+    retained (normalize ropt) keys vals i = true ->
+    (exists id, getid T k = Some id) /\
+    (exists v, get T k = Ok (Found v) /\ val_bytes v = supplied vals i /\ (vals = None -> v = None)).
+Proof. intros ropt keys vals T i k. exact (kept_key_found (normalize ropt) keys vals T i k). Qed.
+Print Assumptions C01_no_false_negatives.
+
+(* [retained] is exactly the property's notion of a retained key *)
+Theorem C01_retained_characterisation :
+  forall o keys vals i, i < length keys ->
+    match vals with
+    | Some vs => length vs = length keys ->
+                 (retained o keys vals i = true <->
+                  (o_dedup o = false \/ i = 0 \/ nth (i - 1) vs [] <> nth i vs []))
+    | None => retained o keys vals i = true
+    end.
+Proof. exact retained_spec. Qed.
+Print Assumptions C01_retained_characterisation.
+
+(* non-vacuity: a concrete trie with a key that is a prefix of another, the
+   empty key, bytes 0x00/0xff, duplicate values (default options: dedup on) *)
+Definition ex_keys : list key := [ []; ["000"%byte]; ["000"%byte; "255"%byte]; ["097"%byte]; ["097"%byte; "098"%byte]; ["255"%byte] ].
+Definition ex_vals : option (list (list byte)) :=
+  Some [ ["001"%byte]; ["001"%byte]; ["002"%byte]; ["002"%byte]; ["003"%byte]; ["003"%byte] ].
+Definition ex_opt : raw_opt := {| r_dedup := None; r_inner := None; r_leaf := None; r_complete := None |}.
+
+Example C01_hypotheses_satisfiable :
+  exists T, build (normalize ex_opt) ex_keys ex_vals = Ok T /\
+            retained (normalize ex_opt) ex_keys ex_vals 2 = true /\
+            retained (normalize ex_opt) ex_keys ex_vals 3 = false /\
+            get T ["000"%byte; "255"%byte] = Ok (Found (Some ["002"%byte])).
+Proof. vm_compute. eexists. repeat split. Qed.
